@@ -1,0 +1,63 @@
+//go:build verif
+
+package structs
+
+// Contracts for the generic containers (property C08), count level.  Comment-only file, read by
+// /verif/cmd/lvc.
+//
+// bsize(x) is the announced size of x: what x.BinarySize() returns, an uninterpreted function of
+// the contents of x (BinarySize is assumed to be a deterministic function of the contents).  The
+// containers loop over their elements, which the abstract engine cannot do without a bound: their
+// contracts towards the composite types are assumed here, and the numeric instances, which have no
+// element loop, are verified against them below.
+
+//@ afunc Vector.BinarySize
+//@   trusted definition of bsize for a vector
+//@   ensures result == bsize(v) && 0 <= result
+
+//@ afunc Vector.WriteTo
+//@   trusted element loop not verified: assumed to write bsize(v) bytes and to flush (the method ends with w.Flush())
+//@   gset pending(w) = *
+//@   ensures implies(isnil(err), n == bsize(v) && pending(w) == 0)
+
+//@ afunc Vector.ReadFrom
+//@   trusted element loop not verified: assumed to consume exactly the announced size of what it rebuilt
+//@   havoc v
+//@   ensures implies(isnil(err), n == bsize(v))
+
+//@ afunc Matrix.BinarySize
+//@   trusted definition of bsize for a matrix
+//@   ensures result == bsize(m) && 0 <= result
+
+//@ afunc Matrix.WriteTo
+//@   trusted row loop not verified: assumed to write bsize(m) bytes and to flush (the method ends with w.Flush())
+//@   gset pending(w) = *
+//@   ensures implies(isnil(err), n == bsize(m) && pending(w) == 0)
+
+//@ afunc Matrix.ReadFrom
+//@   trusted row loop not verified: assumed to consume exactly the announced size of what it rebuilt
+//@   havoc m
+//@   ensures implies(isnil(err), n == bsize(m))
+
+//@ afunc Map.BinarySize
+//@   trusted definition of bsize for a map
+//@   ensures result == bsize(m) && 0 <= result
+
+// no flush is promised by Map.WriteTo: with an empty map nothing below it flushes
+//@ afunc Map.WriteTo
+//@   trusted entry loop not verified: assumed to write bsize(m) bytes
+//@   gset pending(w) = *
+//@   ensures implies(isnil(err), n == bsize(m))
+
+//@ afunc Map.ReadFrom
+//@   trusted entry loop not verified: assumed to consume exactly the announced size of what it rebuilt
+//@   havoc m
+//@   ensures implies(isnil(err), n == bsize(m))
+
+// ---- the numeric instance of Vector.ReadFrom has no element loop: verified, with the run-time
+// ---- panics of make and of the reslice, and the allocation bound, as obligations
+//@ afunc Vector.ReadFrom#uint64
+//@   property C08
+//@   only uint64
+//@   safety allocmax=4294967296
+//@   ensures implies(isnil(err), n == 8 + 8*len(v))
